@@ -67,6 +67,13 @@ func c05Exec(r *rig.SignerRig, domain []byte, endpoint string, ip string) (bool,
 		if pos < len(sigs) {
 			sig = sigs[pos]
 		}
+		// A signature that is valid for the domain under test counts wherever in the response it appears.
+		for i := range sigs {
+			root := model.SigningRoot(b32x(data), domain)
+			if i != pos && len(sigs[i]) > 0 && string(sigs[i]) == string(rig.SymSigBytes(accts[i].PubBytes(), root[:])) {
+				return true, fmt.Sprintf("position %d carries a signature that is valid for the domain submitted at position %d", i, pos), nil
+			}
+		}
 		return c05Judge(ress[pos], sig, accts[pos], model.SigningRoot(b32x(data), domain))
 	case "att":
 		e := Ent{S: 1, T: 2, Root: 1}
@@ -86,6 +93,12 @@ func c05Exec(r *rig.SignerRig, domain []byte, endpoint string, ip string) (bool,
 		var sig []byte
 		if pos < len(sigs) {
 			sig = sigs[pos]
+		}
+		for i := range sigs {
+			root := model.SigningRoot(AttRoot(e), domain)
+			if i != pos && len(sigs[i]) > 0 && string(sigs[i]) == string(rig.SymSigBytes(accts[i].PubBytes(), root[:])) {
+				return true, fmt.Sprintf("position %d carries a signature that is valid for the domain submitted at position %d", i, pos), nil
+			}
 		}
 		return c05Judge(ress[pos], sig, accts[pos], model.SigningRoot(AttRoot(e), domain))
 	case "prop":
@@ -264,7 +277,7 @@ func C05(tier string) int {
 	run.Coverage = map[string]any{
 		"evaluations":         cells,
 		"distinct_nontrivial": len(classes),
-		"rule":                "full grid: domain = (first byte x 3 following bytes in {000000,000001,010000,ffffff} x 3 suffix fills) x 8 endpoint positions x 3 administrator lists x source addresses (absent, unlisted, listed first/last, proper prefix of a listed address, listed address with a suffix; all of them for the exit type, three representatives elsewhere); each cell executed on the real signer stack with fresh accounts; oracle = truth table from the property text; distinct = (endpoint, 4-byte type, allowed, signed) classes observed",
+		"rule":                "full grid: domain = (first byte x 3 following bytes in {000000,000001,010000,ffffff} x 3 suffix fills) x 8 endpoint positions x 3 administrator lists x source addresses (absent, unlisted, listed first/last, proper prefix of a listed address, listed address with a suffix; all of them for the exit type, three representatives elsewhere); each cell executed on the real signer stack with fresh accounts; oracle = truth table from the property text, where a signature valid for the domain under test counts as released wherever in the response it appears; distinct = (endpoint, 4-byte type, allowed, signed) classes observed",
 		"samples":             samples.List(),
 		"exhaustive":          true,
 		"grid":                map[string]any{"domains": len(domains), "first_bytes": len(b0s), "endpoints": len(c05Endpoints), "admin_lists": len(c05AdminLists)},
